@@ -45,26 +45,44 @@ class Work:
         shutil.rmtree(self.root, ignore_errors=True)
 
 
-def run_generate(work, text, dm, name="c24_alg"):
-    """-> ("ok", alg text, psy text) | ("refused", exception class name, message)"""
-    from psyclone.generator import generate
+def run_generate(work, text, dm, name="c24_alg", psyir=False):
+    """-> ("ok", alg text, psy text) | ("refused", exception class name, message).
+    psyir=False: the default algorithm generation (alg_gen.Alg); psyir=True: the PSyIR-based one
+    (LFRicAlgTrans + LFRicAlgInvoke2PSyCallTrans), selected by generator.LFRIC_TESTING (restored afterwards)."""
+    from psyclone import generator
     from psyclone.errors import PSycloneError
     work.n += 1
     path = work.root / ("%s_%d.x90" % (name, work.n))
     path.write_text(text)
+    saved = generator.LFRIC_TESTING
     try:
+        generator.LFRIC_TESTING = bool(psyir)
         with contextlib.redirect_stdout(io.StringIO()), contextlib.redirect_stderr(io.StringIO()):
-            alg, psy = generate(str(path), api="dynamo0.3", kernel_paths=[str(work.kdir)],
-                                distributed_memory=dm)
+            alg, psy = generator.generate(str(path), api="dynamo0.3", kernel_paths=[str(work.kdir)],
+                                          distributed_memory=dm)
         return ("ok", str(alg), str(psy))
     except (PSycloneError, NotImplementedError) as err:
         return ("refused", type(err).__name__, str(err)[:300])
+    except Exception as err:                               # noqa: BLE001
+        if not psyir:
+            raise
+        # the PSyIR path is not the default one: a crash produces no code, so there is nothing the property
+        # could be evaluated on; it is counted (histogram "generate_psyir") and not reported
+        return ("refused", "crash:" + type(err).__name__, str(err)[:300])
     finally:
+        generator.LFRIC_TESTING = saved
         path.unlink()
 
 
-def evaluate(spec, alg, psy):
-    """the property on one generated pair.  -> (problems, per-invoke observations)"""
+PSYIR_DUP = "psyir-path:AlgInvoke2PSyCallTrans._add_arg/repeated-structure-argument-passed-twice"
+PSYIR_NAME = "psyir-path:AlgorithmInvokeCall/named-single-kernel-invoke-called-by-index-name"
+
+
+def evaluate(spec, alg, psy, path="default"):
+    """the property on one generated pair.  -> (problems, per-invoke observations).
+    path = "default" (alg_gen.Alg) or "psyir" (LFRicAlgTrans + LFRicAlgInvoke2PSyCallTrans): same oracle; on the
+    PSyIR path two defects of the unchanged tree are recognised precisely (own reason codes) and the oracle then
+    continues on the repaired view so that everything else is still checked."""
     invs = G.invokes_of(spec)
     routs, _ = X.psy_routines(psy)
     calls = [c for c in X.alg_calls(alg) if c[0].startswith("invoke")
@@ -77,6 +95,28 @@ def evaluate(spec, alg, psy):
     if len({c[0] for c in calls}) != len(calls):
         probs.append(("invoke-name-reused", "file", {"alg_calls": [c[0] for c in calls]}))
     for i, (inv, (cname, acts)) in enumerate(zip(invs, calls)):
+        if path == "psyir":
+            lab = "invoke_" + inv["label"].lower() if inv["label"] else None
+            if cname not in routs and lab in routs and len(inv["kernels"]) == 1 and cname == "invoke_%d" % i:
+                probs.append(("psyir-named-single", "alg", {"invoke": i, "called": cname, "psy_routine": lab,
+                                                            "source_invoke": G.invoke_text(inv)}))
+                cname = lab
+            # a structure argument (a%b...) that is repeated in the invoke is passed again (seen with another letter case of
+            # a component name and, after a stencil kernel, even with the identical spelling)
+            seen, keep, dups = {}, [], []
+            for a in acts:
+                n = X.norm(a)
+                if n in seen and "%" in n:
+                    dups.append({"first": seen[n], "again": "".join(a.split())})
+                else:
+                    seen.setdefault(n, "".join(a.split()))
+                    keep.append(a)
+            if dups:
+                probs.append(("psyir-structure-dup", "alg", {"invoke": i, "passed_twice": dups,
+                                                             "actuals": ["".join(a.split()) for a in acts],
+                                                             "dummies": routs[cname].dummies if cname in routs else None,
+                                                             "source_invoke": G.invoke_text(inv)}))
+                acts = keep
         p, o = X.check_invoke(inv, cname, acts, routs)
         for c, s, d in p:
             if c == "duplicate-dummy":
@@ -89,8 +129,19 @@ def evaluate(spec, alg, psy):
     return probs, obs
 
 
-def classify(code, site, d):
+def classify(code, site, d, path="default"):
     """finding key of a concrete property failure (site/reason-code)"""
+    if code == "psyir-structure-dup":
+        return PSYIR_DUP
+    if code == "psyir-named-single":
+        return PSYIR_NAME
+    key = classify_default(code, site, d)
+    if path == "psyir" and not key.startswith("LFRicInvoke.gen_code/"):      # (that one is a PSy-layer defect)
+        key = "psyir-path:" + key
+    return key
+
+
+def classify_default(code, site, d):
     if code == "actual-is-not-source-text" and site in ("stencil-extent", "stencil-direction") \
             and d.get("actual") == d.get("dummy"):
         return "%s/%s-passed-by-psy-name-not-source-text" % (SITE_OF_FINDING, site)
@@ -150,7 +201,25 @@ def fixed_specs():
     st_pair = [stk(ref("extent", ("exts", "1")), ref("direction", ("dirs", "1"))),
                stk(ref("extent", ("exts", "2")), ref("direction", ("dirs", "2"))),
                stk(ref("extent", ("exts", "1")), ref("direction", ("dirs", "2")))]
-    return [("qr-indexed-pair", file(qr_pair)), ("stencil-indexed-pairs", file(st_pair)),
+    def respell(a, raw, rawcomps):
+        return dict(a, raw=raw, rawcomps=rawcomps)
+
+    def bi(kname, args):
+        return {"kname": kname, "kraw": kname, "builtin": True, "args": args, "layout": list(G.BUILTINS[kname][0])}
+    lit = lambda t: G.mklit(rng, "real", t)                                  # noqa: E731
+    # the same array element repeated with another letter case of the INDEX (and of the name)
+    idx_case = [bi("setval_c", [respell(ref("field", ("fa", "idx")), "fa(idx)", [["fa", "idx"]]), lit("1.0_r_def")]),
+                bi("setval_c", [respell(ref("field", ("fa", "jdx")), "fa(jdx)", [["fa", "jdx"]]), lit("2.0_r_def")]),
+                bi("inc_a_times_X", [lit("3.0_r_def"), respell(ref("field", ("fa", "idx")), "FA(IDX)", [["FA", "IDX"]])]),
+                bi("inc_a_times_X", [lit("0.5_r_def"), respell(ref("field", ("fb", "i,j")), "fb( I , j)", [["fb", " I , j"]])]),
+                bi("setval_c", [respell(ref("field", ("fb", "i,j")), "Fb(i,J)", [["Fb", "i,J"]]), lit("2.0_r_def")])]
+    # the same structure argument repeated with another letter case of a component name
+    comp_case = [bi("setval_c", [respell(ref("field", "obj", ("v", "1")), "obj%v(1)", [["obj", None], ["v", "1"]]), lit("1.0_r_def")]),
+                 bi("setval_X", [f("f1"), respell(ref("field", "obj", ("v", "1")), "OBJ % V( 1 )", [["OBJ", None], ["V", " 1 "]])])]
+    named_single = {"unit": "program", "routines": [[("invoke", {"label": "Update", "label_pos": 0, "kernels":
+                                                                 [bi("setval_c", [f("f2"), lit("1.0_r_def")])]}, "plain")]]}
+    return [("indexed-repeat-index-case", file(idx_case)), ("component-repeat-case", file(comp_case)),
+            ("named-single-kernel", named_single), ("qr-indexed-pair", file(qr_pair)), ("stencil-indexed-pairs", file(st_pair)),
             ("witness-extent-indexed", file([w_ext])), ("witness-direction-indexed", file([w_dir])),
             ("witness-extent-direction-deref", file([w_deref])), ("witness-extent-also-scalar", file(w_dup)),
             ("clean-stencil-qr", file(clean))]
@@ -211,6 +280,14 @@ def run(ctx):
                 ctx.hist("refusal", res[2][:70])
                 continue
             probs, obs = evaluate(spec, res[1], res[2])
+            # the same file through the PSyIR-based algorithm generation: same oracle (harness only, no model)
+            res2 = run_generate(work, text, dm, psyir=True)
+            ctx.hist("generate_psyir", res2[0] if res2[0] == "ok" else "refused:" + res2[1])
+            if res2[0] == "ok":
+                probs2, obs2 = evaluate(spec, res2[1], res2[2], path="psyir")
+                ctx.hist("psyir_invokes_checked", len(obs2))
+                for code, site, d in probs2:
+                    failures.append((classify(code, site, d, "psyir"), code, site, d, text, dm))
             invs = G.invokes_of(spec)
             ctx.hist("invokes_per_file", len(invs))
             ctx.hist("unit", spec["unit"])
@@ -265,8 +342,9 @@ def run(ctx):
         ctx.finding(key, "%s at %s" % (code, site),
                     {"property": "C24", "algorithm_file": text, "distributed_memory": dm, "detail": d,
                      "replay": "psyclone.generator.generate(<this file>, api='dynamo0.3', kernel_paths=[dir with "
-                               "the dynamo0p3 test kernels], distributed_memory=%s); compare the generated CALL's "
-                               "actuals with the source texts" % dm})
+                               "the dynamo0p3 test kernels], distributed_memory=%s)%s; compare the generated CALL's "
+                               "actuals with the source texts" % (dm, " with psyclone.generator.LFRIC_TESTING = True"
+                                                                  if key.startswith("psyir-path:") else "")})
     if not ctx.violations and (failing or not ok):
         i = failing[0] if failing else None
         ctx.violation({"property": "C24",
